@@ -492,13 +492,10 @@ theorem apply_absent (info : Nat → EntInfo) (c : CC) (k : Nat) (o : Op) (hw : 
   | mapCmd ck k' => exact ⟨hw, ha, rfl⟩
   | invalidate k' =>
     simp only [apply]
-    cases hg : aget c.sessions k' with
-    | none => exact ⟨hw, ha, rfl⟩
-    | some u =>
-      refine ⟨fun p hp => hw p (mem_adel hp).1, ?_, rfl⟩
-      intro hmm
-      obtain ⟨p, hp, rfl⟩ := List.mem_map.mp hmm
-      exact ha (List.mem_map.mpr ⟨p, (mem_adel hp).1, rfl⟩)
+    refine ⟨fun p hp => hw p (mem_adel hp).1, ?_, rfl⟩
+    intro hmm
+    obtain ⟨p, hp, rfl⟩ := List.mem_map.mp hmm
+    exact ha (List.mem_map.mpr ⟨p, (mem_adel hp).1, rfl⟩)
   | gc =>
     refine ⟨fun p hp => hw p (List.mem_filter.mp hp).1, ?_, rfl⟩
     intro hmm
@@ -535,9 +532,7 @@ theorem apply_wf (info : Nat → EntInfo) (c : CC) (o : Op) (hw : WF info c) : W
   | mapCmd ck k' => exact hw
   | invalidate k' =>
     simp only [apply]
-    split
-    · exact hw
-    · exact fun p hp => hw p (mem_adel hp).1
+    exact fun p hp => hw p (mem_adel hp).1
   | gc => exact fun p hp => hw p (List.mem_filter.mp hp).1
   | clear => exact wf_empty info
   | size => exact hw
@@ -546,28 +541,9 @@ theorem apply_wf (info : Nat → EntInfo) (c : CC) (o : Op) (hw : WF info c) : W
 
 theorem invalidate_absent (info : Nat → EntInfo) (c : CC) (k : Nat) : Absent (apply info c (.invalidate k)).1 k := by
   simp only [apply]
-  cases hg : aget c.sessions k with
-  | none =>
-    intro hm
-    obtain ⟨p, hp, rfl⟩ := List.mem_map.mp hm
-    -- the first binding of p.1 exists, contradiction with aget = none
-    have : ∀ (l : List (Nat × Nat)), p ∈ l → aget l p.1 ≠ none := by
-      intro l hl
-      induction l with
-      | nil => cases hl
-      | cons q t ih =>
-        obtain ⟨a, b⟩ := q
-        by_cases ha : a = p.1
-        · simp [aget, ha]
-        · simp only [aget, ha, if_false]
-          rcases List.mem_cons.mp hl with rfl | h
-          · exact absurd rfl ha
-          · exact ih h
-    exact this _ hp hg
-  | some u =>
-    intro hm
-    obtain ⟨p, hp, hpk⟩ := List.mem_map.mp hm
-    exact (mem_adel hp).2 hpk
+  intro hm
+  obtain ⟨p, hp, hpk⟩ := List.mem_map.mp hm
+  exact (mem_adel hp).2 hpk
 
 theorem run_absent (info : Nat → EntInfo) (ops : List Op) (c : CC) (k : Nat) (hw : WF info c) (ha : Absent c k)
     (ho : ∀ o ∈ ops, ∀ u, o = .store u → (info u).key ≠ k) :
@@ -584,7 +560,60 @@ theorem run_absent (info : Nat → EntInfo) (ops : List Op) (c : CC) (k : Nat) (
     · exact h3
     · exact this.2 res hres
 
+theorem aget_filter_live (info : Nat → EntInfo) (l : List (Nat × Nat)) (k u : Nat)
+    (hg : aget l k = some u) (hx : expired info u = false) :
+    aget (l.filter (fun p => !expired info p.2)) k = some u := by
+  induction l with
+  | nil => simp [aget] at hg
+  | cons q t ih =>
+    obtain ⟨a, b⟩ := q
+    by_cases ha : a = k
+    · subst ha
+      simp only [aget, if_true] at hg
+      injection hg with hg
+      subst hg
+      simp [List.filter, hx, aget]
+    · simp only [aget, ha, if_false] at hg
+      by_cases hb : expired info b = true
+      · simp only [List.filter, hb, Bool.not_true]
+        exact ih hg
+      · have hb' : expired info b = false := by simpa using hb
+        simp only [List.filter, hb', Bool.not_false, aget, ha, if_false]
+        exact ih hg
+
+/-- the expiry sweep leaves every mapping whose session is in the cache and has not expired -/
+theorem sweep_keeps_live_route (info : Nat → EntInfo) (c : CC) (ck k u : Nat)
+    (hm : (ck, k) ∈ c.cmds) (hg : aget c.sessions k = some u) (hx : expired info u = false) :
+    (ck, k) ∈ (apply info c .gc).1.cmds ∧ aget (apply info c .gc).1.sessions k = some u := by
+  simp only [apply]
+  have := aget_filter_live info c.sessions k u hg hx
+  exact ⟨List.mem_filter.mpr ⟨hm, by simp [this]⟩, this⟩
+
 end Lin
+
+namespace Mint
+
+theorem run_adds (l : List Step) (h : onlyAdds l) (s : St) (hb : ∀ v ∈ s.out, v ≤ s.ctr) (hn : s.out.Nodup) :
+    (∀ v ∈ (run s l).out, v ≤ (run s l).ctr) ∧ (run s l).out.Nodup := by
+  induction l generalizing s with
+  | nil => exact ⟨hb, hn⟩
+  | cons x xs ih =>
+    obtain ⟨t, rfl⟩ := h x (List.mem_cons_self ..)
+    have h' : onlyAdds xs := fun y hy => h y (List.mem_cons_of_mem _ hy)
+    simp only [run, List.foldl_cons]
+    apply ih h'
+    · intro v hv
+      simp only [step, List.mem_cons] at hv ⊢
+      rcases hv with rfl | hv
+      · exact Nat.le_refl _
+      · exact Nat.le_succ_of_le (hb v hv)
+    · simp only [step]
+      refine List.nodup_cons.mpr ⟨?_, hn⟩
+      intro hm
+      have := hb _ hm
+      omega
+
+end Mint
 
 /-! ### the configuration cell -/
 namespace Cfg
